@@ -479,6 +479,54 @@ def _entry_conditions(ctx, run, fin):
     # network attributes, so nothing is torn down) only for a state file
     # that is corrupt; a file that cannot be read now makes the finish fail
     # and be tried again
+    # the record a repeated finish works from - the container directory with
+    # its state file - is removed only after the finish went through: a
+    # finish that failed half way is tried again and finds it
+    rb = ctx.index.module('treadmill.runtime.runtime_base')
+    rbc = rb.classes.get('RuntimeBase') if rb else None
+    fin_m = rbc.methods.get('finish') if rbc else None
+    ctx.require(fin_m is not None, 'RuntimeBase.finish', rule='C16.3')
+    fgraph = ctx.cfg(fin_m)
+    inner = [n for n, c in K.nodes_calling(
+        fgraph, lambda c: K.is_meth(c, '_finish') and
+        K.recv_text(c) == 'self')]
+    wipes = [n for n, c in K.nodes_calling(
+        fgraph, lambda c: K.callee_text(c) in ('shutil.rmtree',
+                                               'fs.rmtree_safe'))]
+    ctx.require(inner and wipes, '_finish() and the removal of the container '
+                'directory in RuntimeBase.finish', rule='C16.3', func=fin_m)
+    for node in wipes:
+        ok = K.guarded_by(fgraph, node, lambda e: e.src in inner and
+                          e.kind != 'exc', follow_exc=True)
+        ctx.ob('C16.3', fin_m, node, ok,
+               'the container directory is removed only after _finish() '
+               'returned normally', construct='directory kept for a retry')
+    # "the resource is not there" (which finish reads as: already freed,
+    # nothing to tear down) is answered for a reply file that does not
+    # exist - not for one that could not be read just now
+    bs = ctx.index.module('treadmill.services._base_service')
+    rsc = bs.classes.get('ResourceServiceClient') if bs else None
+    wait = rsc.methods.get('wait') if rsc else None
+    ctx.require(wait is not None, 'ResourceServiceClient.wait', rule='C16.3')
+    wgraph = ctx.cfg(wait)
+    wnz = N.Normaliser()
+    handlers = [n for n in wgraph.nodes if n.kind == 'handler']
+    converted = [n for n in wgraph.nodes if n.kind == 'raise_stmt' and
+                 isinstance(n.ast, ast.Raise) and n.ast.exc is not None and
+                 'TimeoutError' in N.txt(n.ast.exc) and any(
+                     n in K.cut_reach(wgraph, h, follow_exc=False)
+                     for h in handlers)]
+    ctx.require(converted, 'conversion of a read error into "not available" '
+                'in ResourceServiceClient.wait', rule='C16.3', func=wait)
+    for node in converted:
+        ok = K.guarded_by(wgraph, node, lambda e: any(
+            a.key[0] == 'cmp' and a.key[1] == '==' and
+            'errno.ENOENT' in [t for t, _c in a.key[2]]
+            for a in wnz.facts_of_edge(e)), follow_exc=True)
+        ctx.ob('C16.3', wait, node, ok,
+               'a read error of the reply becomes "not available" only when '
+               'the file does not exist (ENOENT)',
+               construct='not-available only for a missing reply')
     rt = ctx.index.module(RT)
     safe = rt.functions.get('load_app_safe') if rt else None
     ctx.require(safe is not None, 'runtime.load_app_safe', rule='C16.3')
